@@ -15,12 +15,10 @@ Definition rm_list_step (s : schema) (extract : bool) (T : pset) (t : listT)
   let has := rm_has T e in
   let subset := rm_subset T e in
   if has && negb extract then rest
-  else
-    let first := if has then [remove_items s extract (list_elem t) T item] else [] in
-    if negb (ps_empty subset) then
-      first ++ remove_items s extract (list_elem t) subset item :: rest
-    else if extract then first ++ rest
-    else first ++ item :: rest.
+  else if has && ps_empty subset then remove_items s extract (list_elem t) T item :: rest
+  else if negb (ps_empty subset) then remove_items s extract (list_elem t) subset item :: rest
+  else if extract then rest
+  else item :: rest.
 
 Lemma rm_list_go_cons : forall s extract T t item l,
   rm_list_go s extract T t (item :: l) = rm_list_step s extract T t item (rm_list_go s extract T t l).
